@@ -22,20 +22,43 @@ func c21Run(r *simkit.Run) {
 	nblocks := r.Draw("blocks", 1, 4)
 	gen := newDBGen(r, r.Draw("state_keys", 1, 4))
 
+	// half of the runs look only at the race of the parallel batches of the permanent merge: one or two big
+	// blocks, each merged, crash points in the merge phases only - short runs, many schedules of the batch jobs
+	// (the permanent merge keeps the newest temp database: a block is merged once a later block exists)
+	mergeRace := r.Flag("merge_race_focus")
+	if mergeRace {
+		nblocks = 2 + r.Choose(2)
+	}
+
 	// block sizes: small, more than one block-write batch (128), more than one permanent-merge batch (333)
 	sizes := make([]int, nblocks)
 	for i := range sizes {
 		switch r.Choose(6) {
 		case 0:
 			sizes[i] = 140
-		case 1:
+		case 1, 2:
 			sizes[i] = 350
+		case 3:
+			if r.Tier == "thorough" {
+				sizes[i] = 700 // three permanent-merge batches
+			}
 		}
 	}
 
 	mergeAfter := make([]bool, nblocks)
 	for i := range mergeAfter {
 		mergeAfter[i] = r.Chance(2, 3)
+	}
+
+	if mergeRace {
+		for i := range sizes {
+			sizes[i] = 0
+			if i < nblocks-1 {
+				sizes[i] = []int{350, 350, 700, 1100}[r.Choose(4)]
+			}
+
+			mergeAfter[i] = true
+		}
 	}
 
 	maxPoints := 60
@@ -96,7 +119,8 @@ func c21Run(r *simkit.Run) {
 		}
 	})
 
-	r.Sched(simkit.SchedOpts{MaxSteps: 20000000, Stick: r.DrawStick()})
+	// the order in which the parallel batches of a permanent merge reach the disk: random walk, or priorities (PCT)
+	r.Sched(simkit.SchedOpts{MaxSteps: 20000000, Stick: r.DrawStick(), PCT: []int{0, 1, 2, 3}[r.Draw("pct_depth", 0, 3)]})
 
 	if r.Live() > 0 {
 		r.Fail("liveness", "database", "history did not finish")
@@ -121,6 +145,10 @@ func c21Run(r *simkit.Run) {
 	var points []point
 
 	for pi, ph := range phases {
+		if mergeRace && ph.before.top() != ph.after.top() {
+			continue // block-write phases are the other population's
+		}
+
 		for k := ph.lo; k <= ph.hi; k++ {
 			points = append(points, point{ph: pi, k: k, mode: simdisk.ProcessCrash})
 
@@ -134,9 +162,23 @@ func c21Run(r *simkit.Run) {
 
 	exhaustive := len(points) <= maxPoints
 	if !exhaustive {
+		// the permanent-merge phases are short and are where the parallel batches race: all of their points first
+		// (as far as the budget goes), the rest of the budget is a tape-chosen sample of the block-write phases
 		sel := make([]point, 0, maxPoints)
-		for i := 0; i < maxPoints; i++ {
-			sel = append(sel, points[r.Choose(len(points))])
+
+		var rest []point
+
+		for _, pt := range points {
+			ph := phases[pt.ph]
+			if ph.before.top() == ph.after.top() && len(sel) < maxPoints*2/3 {
+				sel = append(sel, pt)
+			} else {
+				rest = append(rest, pt)
+			}
+		}
+
+		for len(sel) < maxPoints && len(rest) > 0 {
+			sel = append(sel, rest[r.Choose(len(rest))])
 		}
 
 		points = sel
